@@ -16,7 +16,49 @@ import sys
 
 
 def main():
+    if len(sys.argv) > 1 and sys.argv[1] == "--serve":
+        return serve()
     req = json.load(sys.stdin)
+    json.dump(run_job(req), sys.stdout)
+
+
+def serve():
+    """Job server: the modules are imported ONCE (no CRS is ever constructed here, both caches of odc.geo.crs stay
+    empty), then every history runs in a FORKED child - for the process-global caches a fresh interpreter - and its
+    result goes back on one line.  Saves the interpreter start-up and imports of one process per history."""
+    import os
+
+    import numpy  # noqa: F401
+    import pyproj  # noqa: F401
+
+    import odc.geo.crs as C
+
+    assert len(getattr(C, "_crs_cache", ())) == 0
+    for line in sys.stdin:
+        line = line.strip()
+        if not line:
+            continue
+        req = json.loads(line)
+        r, w = os.pipe()
+        pid = os.fork()
+        if pid == 0:
+            os.close(r)
+            try:
+                out = json.dumps(run_job(req))
+            except BaseException as e:  # pylint: disable=broad-except
+                out = json.dumps({"error": repr(e)[-400:]})
+            with os.fdopen(w, "w") as f:
+                f.write(out)
+            os._exit(0)
+        os.close(w)
+        with os.fdopen(r) as f:
+            data = f.read()
+        os.waitpid(pid, 0)
+        sys.stdout.write((data or json.dumps({"error": "child wrote nothing"})) + "\n")
+        sys.stdout.flush()
+
+
+def run_job(req):
     import numpy as np
     import pyproj
 
@@ -289,8 +331,8 @@ def main():
             return None
 
     tr_fn = getattr(C, "_make_crs_transform", None)
-    json.dump({"obs": obs, "cache": size_of(getattr(C, "_crs_cache", None)),
-               "tcache": size_of(getattr(tr_fn, "cache", None)), "records": records}, sys.stdout)
+    return {"obs": obs, "cache": size_of(getattr(C, "_crs_cache", None)),
+            "tcache": size_of(getattr(tr_fn, "cache", None)), "records": records}
 
 
 if __name__ == "__main__":
